@@ -175,7 +175,10 @@ size_t ppMinPoly_deep(size_t l)
 {
 	const size_t n = W_OF_B(l);
 	const size_t m = W_OF_B(l + 1);
-	return O_OF_W(8 * n + 2 * m + 5) + ppAddMulW_deep(m);
+	return O_OF_W(8 * n + 2 * m + 5) +
+		utilMax(2,
+			ppDiv_deep(2 * n + 1, 2 * n),
+			ppAddMulW_deep(m));
 }
 
 void ppMinPolyMod(word b[], const word a[], const word mod[], size_t n,
@@ -206,5 +209,5 @@ void ppMinPolyMod(word b[], const word a[], const word mod[], size_t n,
 
 size_t ppMinPolyMod_deep(size_t n)
 {
-	return ppMulMod_deep(n) + ppMinPoly_deep(n * B_PER_W);
+	return O_OF_W(3 * n) + ppMulMod_deep(n) + ppMinPoly_deep(n * B_PER_W);
 }
